@@ -11,9 +11,13 @@ RULE = ("histories (c12.seq: sequences of orders in one process, incl. consecuti
         "orders are enumerated (1..64 quick, 1..512 thorough, each on several intervals) plus a seeded sample of orders up "
         "to 4000; a case is non-trivial when the model answers ok/err and is counted once per distinct "
         "(op, order, parity, interval class: canonical/shifted/reversed/far/tiny, outcome) key")
-CORR_ONLY = ["exactness to degree 2n-1 'for all n' is evaluated per n on the implementation's nodes/weights (Legendre basis and "
-             "monomials up to degree min(2n-1,60), 160-bit fixed point / exact fractions): a test per order, not a theorem",
-             "nodes strictly increasing and strictly inside, weights positive and summing to b-a: evaluated per order on the "
+CORR_ONLY = ["exactness to degree 2n-1: PROVED for all n for the rule with nodes at n distinct roots of the coded P_n and the coded "
+             "weights (Lp.C12.gl_exact_legendre: structure theorem + orthogonality of the coded recurrence + Christoffel-Darboux "
+             "weight formula, algebraic integral, any field of characteristic 0; instances n=2,3 in R); what is still only "
+             "EVALUATED per n on the implementation's nodes/weights (Legendre basis and monomials up to degree min(2n-1,60), "
+             "160-bit fixed point / exact fractions) is that the doubles returned are those roots/weights to rounding, i.e. "
+             "existence of n distinct real roots of P_n and convergence of the coded Newton iteration to them",
+             "nodes strictly increasing and strictly inside, weights positive: evaluated per order (the sum b-a is a theorem for exact roots, Lp.C12.gl_weights_sum) on the "
              "implementation's output and, through class B, against the model's 200-bit Newton iteration",
              "convergence of the Newton iteration from the coded start value (termination of while(true))"]
 ASSUMPTIONS = ["'exact to rounding' is evaluated as: the Newton stopping tolerance of the code (|z-z1| <= 1e-14, pp taken at z1) "
